@@ -291,6 +291,8 @@ class MQTTProtocol(MQTTBaseProtocol):
         # so:  response.msgId == windowPublish[self.addr][0].msgId
         try:
              request = self.factory.windowPublish[self.addr][response.msgId]
+             if request.qos != 1:    # a QoS 2 message is acknowledged by PUBREC, never by PUBACK
+                 raise KeyError(response.msgId)
         except KeyError as e:
             log.debug("<== {packet:7} (id={response.msgId:04x}) already handled", packet="PUBACK", response=response)
         else:
@@ -309,6 +311,8 @@ class MQTTProtocol(MQTTBaseProtocol):
         # so:  response.msgId == windowPublish[self.addr][0].msgId
         try:
             request = self.factory.windowPublish[self.addr][response.msgId]
+            if request.qos != 2:    # a QoS 1 message is acknowledged by PUBACK, never by PUBREC
+                raise KeyError(response.msgId)
         except KeyError as e:
             log.debug("<== {packet:7} (id={response.msgId:04x}) already handled", packet="PUBREC", response=response)
         else:
